@@ -236,7 +236,8 @@ fn has_lazy_continuation_split(f: &Feat, base: &Opts, doc: &str) -> bool {
         let r_on = comrak::parse_document(&a2, &ext, &c_on);
         let spans = |n: &comrak::nodes::AstNode, line: usize| {
             let d = n.data.borrow();
-            matches!(d.value, NodeValue::Paragraph) && d.sourcepos.start.line < line && d.sourcepos.end.line >= line
+            // a paragraph, or the setext heading a continuation line like `=` turns it into
+            matches!(d.value, NodeValue::Paragraph | NodeValue::Heading(_)) && d.sourcepos.start.line < line && d.sourcepos.end.line >= line
         };
         (2..=lines.len()).any(|line| {
             !is_blank(lines[line - 1])
